@@ -135,6 +135,30 @@ func (ss *sharedSlices) writes(fn *Fn, entry Facts, depth int) []sharedWrite {
 			}
 		}
 	}
+	// x := T{F: shared} / &T{F: shared}: the field of the new value shares
+	literal := func(lhs, rhs ast.Expr, f Facts) {
+		rhs = ast.Unparen(rhs)
+		if u, ok := rhs.(*ast.UnaryExpr); ok && u.Op == token.AND {
+			rhs = ast.Unparen(u.X)
+		}
+		cl, ok := rhs.(*ast.CompositeLit)
+		if !ok {
+			return
+		}
+		_, key, ok := p.PathKey(fn, lhs)
+		if !ok {
+			return
+		}
+		for _, el := range cl.Elts {
+			kv, ok := el.(*ast.KeyValueExpr)
+			if !ok {
+				continue
+			}
+			if id, ok := kv.Key.(*ast.Ident); ok && ss.shared(fn, kv.Value, f) {
+				f["shared|"+key+"."+id.Name] = true
+			}
+		}
+	}
 	fl.Node = func(n ast.Node, f Facts) {
 		switch x := n.(type) {
 		case *ast.AssignStmt:
@@ -146,6 +170,7 @@ func (ss *sharedSlices) writes(fn *Fn, entry Facts, depth int) []sharedWrite {
 				for i, lh := range x.Lhs {
 					if p.TypeOf(fn, lh) != nil {
 						assign(lh, vals[i], f)
+						literal(lh, x.Rhs[i], f)
 					}
 				}
 			} else {
@@ -161,6 +186,7 @@ func (ss *sharedSlices) writes(fn *Fn, entry Facts, depth int) []sharedWrite {
 					if vs, ok := sp.(*ast.ValueSpec); ok && len(vs.Values) == len(vs.Names) {
 						for i, nm := range vs.Names {
 							assign(nm, ss.shared(fn, vs.Values[i], f), f)
+							literal(nm, vs.Values[i], f)
 						}
 					}
 				}
